@@ -12,6 +12,7 @@ from ._helpers_rules_c import (
     PathSense, attr_store_sites, both, call_nodes, calls_ending, calm, cut_edges, is_false, is_true,
     kw_or_pos, must_pass, quiet, rcfg, test_edges,
 )
+from ._helpers_rob_a import normal_form, transitive_owners
 from .c24 import finalize_fairy_reset
 from .c25 import overflow_pairing
 
@@ -39,6 +40,27 @@ POOL = "pool/base.py"
 EXC = lambda a, b, lab: lab == "exc"  # noqa: E731
 
 
+def _nf(ctx, key, *keep, alias="dotted"):
+    """The anchored function in refactoring-robust normal form (extracted helpers inlined, single-assignment
+    locals resolved; see _helpers_rob_a).  `keep`: the callee names the rule recognises by name."""
+    return normal_form(ctx, ctx.func(key), keep=keep, alias=alias)
+
+
+def _owners(ctx, seen, table, attr):
+    """T-OWN: a writer that is not listed but is a private helper all of whose callers are listed writers acts
+    for them.  Answers {owner: helper} for the listed owners reached that way and the set of such helpers."""
+    via, helpers = {}, set()
+    for owner in seen:
+        if owner in table:
+            continue
+        acts_for = transitive_owners(ctx.index, owner, table)
+        if acts_for:
+            helpers.add(owner)
+            for o in acts_for:
+                via.setdefault(o, owner)
+    return via, helpers
+
+
 def _handler_of(pm_local, node, handlers):
     """innermost handler (ast.ExceptHandler) lexically containing node."""
     best = None
@@ -54,7 +76,7 @@ def _handler_of(pm_local, node, handlers):
         desc="_ConnectionRecord.checkout: an exceptional exit of get_connection() passes "
              "_checkin_failed(err, _fairy_was_created=False); _checkin_failed invalidates then checks in")
 def r1(ctx):
-    f = ctx.func(f"{POOL}::_ConnectionRecord.checkout")
+    f = _nf(ctx, f"{POOL}::_ConnectionRecord.checkout", "get_connection", "_checkin_failed")
     g = rcfg(ctx, f, strict_exc=True)
     getc = calls_ending(g, "get_connection")
     ctx.require(getc, "no get_connection() call in _ConnectionRecord.checkout")
@@ -73,7 +95,7 @@ def r1(ctx):
               "_checkin_failed is not told that no fairy exists yet (_fairy_was_created=False): checkin() would "
               "treat the record as already checked in and refuse to return it",
               "_fairy_was_created=False", f.loc)
-    f2 = ctx.func(f"{POOL}::_ConnectionRecord._checkin_failed")
+    f2 = _nf(ctx, f"{POOL}::_ConnectionRecord._checkin_failed", "invalidate", "checkin")
     g2 = ctx.cfg(f2)
     inv = call_nodes(g2, lambda nm, c: nm == "self.invalidate")
     chk = call_nodes(g2, lambda nm, c: nm == "self.checkin")
@@ -97,7 +119,8 @@ def r1(ctx):
              "DisconnectionError the record (and the pool when invalidate_pool) is invalidated before "
              "get_connection() is retried; exhausted attempts invalidate the fairy before raising")
 def r2(ctx):
-    f = ctx.func(f"{POOL}::_ConnectionFairy._checkout")
+    f = _nf(ctx, f"{POOL}::_ConnectionFairy._checkout", "_checkin_failed", "get_connection", "invalidate", "_invalidate",
+            "checkout", alias=None)
     g = rcfg(ctx, f, strict_exc=True)
     view = g.fn
     handlers = [n for n in ast.walk(view) if isinstance(n, ast.ExceptHandler)]
@@ -195,7 +218,7 @@ def _newer_than_start(test, attr):
              "a stale connection is closed (terminate) before __connect(); "
              "_is_hard_or_soft_invalidated agrees on the invalidation tests")
 def r3(ctx):
-    f = ctx.func(f"{POOL}::_ConnectionRecord.get_connection")
+    f = _nf(ctx, f"{POOL}::_ConnectionRecord.get_connection", "__connect", "__close", alias="all")
     g = ctx.cfg(f)
     ps = PathSense(g)
     connect = call_nodes(g, lambda nm, c: nm.endswith("__connect"))
@@ -231,7 +254,7 @@ def r3(ctx):
               "__connect() can replace a live DBAPI connection that was not closed with terminate=True (leak)",
               "__close(terminate=True) precedes __connect() unless there is no connection", f.loc, w)
     # sibling agreement
-    f2 = ctx.func(f"{POOL}::_ConnectionRecord._is_hard_or_soft_invalidated")
+    f2 = _nf(ctx, f"{POOL}::_ConnectionRecord._is_hard_or_soft_invalidated", alias="all")
     rets = [n for n in walk_local(f2.node) if isinstance(n, ast.Return) and n.value is not None]
     ctx.require(len(rets) == 1, "_is_hard_or_soft_invalidated is not a single return expression")
     e = rets[0].value
@@ -259,7 +282,7 @@ def r3(ctx):
              "connection before calling the creator; __close clears finalisers and nulls the connection; "
              "_close_connection swallows every Exception of the DBAPI close")
 def r4(ctx):
-    f = ctx.func(f"{POOL}::_ConnectionRecord.invalidate")
+    f = _nf(ctx, f"{POOL}::_ConnectionRecord.invalidate", "__close")
     g = ctx.cfg(f)
     closes = call_nodes(g, lambda nm, c: nm.endswith("__close") and is_true(kw_or_pos(c, "terminate") or ast.Constant(False)))
     nulls = [n for d, t, st in attr_stores(f.node) if d == "self.dbapi_connection" and isinstance(st, ast.Assign)
@@ -276,7 +299,7 @@ def r4(ctx):
               "a hard invalidate can return (or drop its reference to the connection) without __close(terminate=True)",
               "__close(terminate=True) [-> dbapi_connection = None]", f.loc, w or w2)
     # __connect
-    fc = ctx.func(f"{POOL}::_ConnectionRecord.__connect")
+    fc = _nf(ctx, f"{POOL}::_ConnectionRecord.__connect", "_invoke_creator")
     gc_ = rcfg(ctx, fc)
     creator = calls_ending(gc_, "_invoke_creator")
     ctx.require(creator, "no _invoke_creator() call in __connect")
@@ -290,7 +313,7 @@ def r4(ctx):
               "connect would leave the dead connection in the record",
               "dbapi_connection = None precedes the creator call", fc.loc, w)
     # __close
-    fx = ctx.func(f"{POOL}::_ConnectionRecord.__close")
+    fx = _nf(ctx, f"{POOL}::_ConnectionRecord.__close", "_close_connection")
     gx = ctx.cfg(fx)
     clr = call_nodes(gx, lambda nm, c: nm.endswith("finalize_callback.clear"))
     nulls = [n for d, t, st in attr_stores(fx.node) if d == "self.dbapi_connection" and isinstance(st, ast.Assign)
@@ -303,7 +326,7 @@ def r4(ctx):
               "__close can complete without closing the DBAPI connection, nulling it and clearing the finalisers",
               "clear finalisers, _close_connection, dbapi_connection = None on every normal path", fx.loc, w or w1 or w2)
     # Pool._close_connection
-    fp = ctx.func(f"{POOL}::Pool._close_connection")
+    fp = _nf(ctx, f"{POOL}::Pool._close_connection")
     gp = rcfg(ctx, fp, strict_exc=True)
     dbapi_close = calls_ending(gp, "do_close", "do_terminate")
     ctx.require(dbapi_close, "no do_close/do_terminate in Pool._close_connection")
@@ -339,7 +362,13 @@ def r6(ctx):
     seen = {}
     for owner, d, st, m in sites:
         seen.setdefault(owner, (d, st, m))
+    via, helpers = _owners(ctx, seen, INVALIDATE_TIME_WRITERS, "_invalidate_time")
+    for o, h in sorted(via.items()):
+        if o not in seen:
+            seen[o] = seen[h]
     for owner, (d, st, m) in sorted(seen.items()):
+        if owner in helpers:
+            continue
         ctx.check(owner in INVALIDATE_TIME_WRITERS, f"{owner}:_invalidate_time",
                   f"`{unparse(st).splitlines()[0]}` writes the pool invalidation timestamp outside Pool._invalidate "
                   f"(connections could be recycled or kept against the generation rule)",
@@ -371,13 +400,19 @@ def r7(ctx):
     seen = {}
     for owner, d, st, m in sites:
         seen.setdefault(owner, (d, st, m))
+    via, helpers = _owners(ctx, seen, STARTTIME_WRITERS, "starttime")
+    for o, h in sorted(via.items()):
+        if o not in seen:
+            seen[o] = seen[h]
     for owner, (d, st, m) in sorted(seen.items()):
+        if owner in helpers:
+            continue
         ctx.check(owner in STARTTIME_WRITERS, f"{owner}:starttime",
                   f"`{unparse(st).splitlines()[0]}` re-stamps a connection record outside __connect: the record's age no "
                   "longer says when its DBAPI connection was begun, so `_invalidate_time > starttime` / pool_recycle "
                   "can keep a connection that predates a pool invalidation",
                   STARTTIME_WRITERS.get(owner, ""), f"{m.path}:{st.lineno}", nontrivial=False)
-    fc = ctx.func(f"{POOL}::_ConnectionRecord.__connect")
+    fc = _nf(ctx, f"{POOL}::_ConnectionRecord.__connect", "_invoke_creator", alias=None)
     ctx.require(fc.key in seen, "_ConnectionRecord.__connect no longer stamps starttime")
     g = rcfg(ctx, fc)
     creator = calls_ending(g, "_invoke_creator")
